@@ -3,9 +3,12 @@
 generate(seed, tier) -> list of scenario texts ("== r<N>" ... "end"), tier "quick" (~800
 scenarios) or "thorough" (~20000). Deterministic in (seed, tier).
 
-Every scenario has one node, a fixed dns table (latency alphabet {0, 500 ns, 1 us, 50 ms,
-100 ms}; answers ok/one, ok/multi, ok/empty, host_not_found, other-with-addresses, mixed
-v4/v6) plus names without a dns line (host_not_found after 100 ms), 1-2 resolvers (tcp/udp),
+Every scenario has one node and a dns table: the exhaustive parts use the fixed table DNS (latency
+alphabet {0, 500 ns, 1 us, 50 ms, 100 ms}; answers ok/one, ok/multi, ok/empty, host_not_found,
+other-with-addresses, mixed v4/v6), two thirds of the random programs a table of their own
+(random_table: per-name latency 0 ns .. 3 s incl. 1, 499, 999, 1001, 7777 ns, any error with
+0-4 addresses); names without a dns line (host_not_found after 100 ms), 1-2 resolvers (tcp/udp,
+destroyed and replaced from timer contexts now and then),
 IPv4 and IPv6 literals, ports {0, 80, 8080, 65535}. Calls are issued
   * at top level (t = 0, before run),
   * at arbitrary absolute instants (a helper timer armed at top whose handler makes the calls),
@@ -45,10 +48,11 @@ LAT.update({"nosuch.org": 100 * MS, "-": 100 * MS})
 class Scn:
     """Builds one scenario text."""
 
-    def __init__(self, sid, resolvers=("tcp",)):
+    def __init__(self, sid, resolvers=("tcp",), dns=None):
         self.sid = sid
         self.decl = ["node n0 10.0.0.1"]
-        for n, err, lat, ips in DNS:
+        self.protos = list(resolvers)
+        for n, err, lat, ips in (dns or DNS):
             self.decl.append("dns %s err=%s lat=%d ips=%s" % (n, err, lat, ",".join(ips)))
         self.top = []
         self.bodies = {}          # handler index -> list of op strings
@@ -97,6 +101,14 @@ class Scn:
 
     def cancel(self, ctx, r=0):
         self.emit(ctx, "r%d.cancel" % r)
+
+    def destroy(self, ctx, r=0, renew=None):
+        """destroy resolver r (its pending lookups complete with operation_aborted); renew = index of a
+        new resolver of the same protocol created right afterwards in the same context"""
+        self.emit(ctx, "r%d.destroy" % r)
+        if renew is not None:
+            while len(self.protos) <= renew: self.protos.append(self.protos[r] if r < len(self.protos) else "tcp")
+            self.emit(ctx, "r%d.new n0 %s" % (renew, self.protos[renew]))
 
     def text(self):
         out = ["== r%d" % self.sid] + self.decl
@@ -183,9 +195,31 @@ def part_reentrant(mk, initials, bodies, which):
     return out
 
 
+RLAT = [0, 1, 499, 500, 999, 1000, 1001, 2000, 7777, 1000000, 49999999, 50000000, 3000000000]
+RIPS = ["1.1.1.1", "3.3.3.3", "3.3.3.4", "2.2.2.2", "1.2.3.4", "5.6.7.8", "10.0.0.9", "10.0.0.8", "9.9.9.9",
+        "255.255.255.255", "0.0.0.0", "2001:db8::1", "::1", "fe80::7"]
+
+
+def random_table(rng):
+    """a dns table of this scenario's own: the names of DNS with latency, error and answer list drawn
+    at random (latencies from sub-microsecond to seconds, around the literal's microsecond; 0-4
+    addresses, duplicates and mixed families allowed; any error with or without addresses)"""
+    lats = rng.choice([RLAT, RLAT, RLAT[:9], [0, 1, 499, 500, 999, 1000, 1001], RLAT[5:]])
+    out = []
+    for n, _, _, _ in DNS:
+        if rng.random() < 0.1: continue          # no dns line: host_not_found after 100 ms
+        err = rng.choice(["ok", "ok", "ok", "host_not_found", "other"])
+        k = rng.choice([0, 1, 1, 2, 3, 4]) if err == "ok" else rng.choice([0, 0, 1, 2])
+        out.append((n, err, rng.choice(lats), [rng.choice(RIPS) for _ in range(k)]))
+    return out
+
+
 def random_scenario(rng, sid):
     nres = 1 if rng.random() < 0.7 else 2
-    s = Scn(sid, tuple(rng.choice(["tcp", "udp"]) for _ in range(nres)))
+    table = random_table(rng) if rng.random() < 0.65 else None
+    s = Scn(sid, tuple(rng.choice(["tcp", "udp"]) for _ in range(nres)), dns=table)
+    cur = list(range(nres))     # slot -> index of the resolver object now in that slot
+    timer_ctx = set(["top"])    # contexts that are not a lookup handler (destroy is only issued there)
     style = rng.random()
     # instants calls are made at: around 0, around the microsecond, around name completions
     if style < 0.35:
@@ -199,14 +233,30 @@ def random_scenario(rng, sid):
     else:
         pool = [0, 0, 0, 500, 1000, 50 * MS, 100 * MS, 100 * MS + 500, 210 * MS]
         names = NAMES
+    if table is not None:
+        # instants around this table's own completion times (single lookups and chains of two)
+        lt = [d[2] for d in table] or [0]
+        pool = [0, 0, 0, 999, 1000]
+        for _ in range(8):
+            a = rng.choice(lt); b = rng.choice(lt)
+            pool += [max(0, a + rng.choice([-1, 0, 0, 1, 500, 1000])), a + b + rng.choice([0, 0, 999, 1000])]
+        names = NAMES
     budget = rng.choice([3, 4, 5, 6, 8, 10, 12])
     pending = []              # lookup handler contexts that may get a body
     ctxs = {}
 
     def one_call(ctx, depth):
         x = rng.random()
-        r = rng.randrange(nres)
+        slot = rng.randrange(nres)
+        r = cur[slot]
         if x < 0.12:
+            if ctx in timer_ctx and rng.random() < 0.2:
+                # destroy instead of cancel (never from a lookup handler): pending lookups are aborted,
+                # a posted completion of the resolver's timer finds the object gone; the slot goes on
+                # with a new resolver object
+                cur[slot] = len(s.protos)
+                s.destroy(ctx, r, renew=cur[slot])
+                return
             s.cancel(ctx, r)
             return
         if x < 0.45:
@@ -228,6 +278,7 @@ def random_scenario(rng, sid):
             else:
                 ctx = s.at(t)
                 ctxs[t] = ctx
+                timer_ctx.add(ctx)
             one_call(ctx, 0)
         else:
             i = rng.randrange(len(pending))
@@ -239,6 +290,7 @@ def random_scenario(rng, sid):
                 one_call(h, d)                                   # inline, from the handler
             else:
                 ctx = s.after(h, rng.choice([0, 1, 500, 999, 1000, 1001, 50 * MS]))
+                timer_ctx.add(ctx)
                 one_call(ctx, d)
     return s.text()
 
@@ -325,8 +377,30 @@ def generate(seed, tier):
                     for c in body: s.at_boundary("%s%d" % (kind, k), c)
                     out.append(s.text())
 
+    # 8. resolver destroyed with lookups pending (from top, from a timer handler at / around the instants
+    #    lookups are due, and between the resolver's timer firing and its posted completion running);
+    #    optionally a new resolver takes over
+    for ini in [[A], [F, U], [L4, F], [A, B], [M, A], [L4, L6]] + ([[F, F, F], [Z, A]] if thorough else []):
+        for when in (["top", 500, 1000, 1001, 50 * MS, 100 * MS, "a1", "s1", "a2"] + ([999, "s2", "a3", 150 * MS] if thorough else [])):
+            for renew in ((False, True) if thorough or when in ("top", 1000, "a1") else (rng.random() < 0.5,)):
+                s = mk()
+                for c in ini: apply_call(s, "top", c)
+                if isinstance(when, str) and when != "top":
+                    if not hasattr(s, "raw"): s.raw = []
+                    s.raw.append("do %s r0.destroy" % when)
+                    if renew:
+                        s.raw.append("do %s r1.new n0 udp" % when)
+                        h = s.newh(); s.raw.append("do %s r1.resolve f.com 80 h%d" % (when, h))
+                else:
+                    ctx = "top" if when == "top" else s.at(when)
+                    s.destroy(ctx, 0, renew=1 if renew else None)
+                    if renew:
+                        s.resolve(ctx, "f.com", "80", r=1); s.resolve(ctx, "10.9.8.7", "81", r=1)
+                    s.resolve(ctx, "u.com", "82", r=0)          # on the destroyed object: skipped
+                out.append(s.text())
+
     # 6. random longer programs
-    target = 20000 if thorough else 1100
+    target = 20000 if thorough else 1300
     while len(out) < target:
         counter[0] += 1
         out.append(random_scenario(rng, counter[0]))
